@@ -46,6 +46,7 @@ type World struct {
 	needItoa   bool
 	needHex    bool
 	needFsRead bool
+	needDynRe  bool
 	loadErrors []string
 	funcs      map[string]*FuncSite // pkgpath::Recv.Name -> site
 	regexVars  map[string]string    // objKey of package-level regex var -> pattern literal
